@@ -17,6 +17,7 @@ import sys
 HERE = os.path.dirname(os.path.abspath(__file__))
 sys.path.insert(0, HERE)
 
+import classes  # noqa: E402
 import funcs  # noqa: E402
 import tables  # noqa: E402
 
@@ -57,6 +58,7 @@ def main(argv):
 
     jobs = {
         "Utils": lambda: funcs.generate_utils(src("utils.py")),
+        "IndexImpl": lambda: classes.generate_index(src("index.py")),
     }
     jobs.update(tables.jobs(src))
     ok = True
